@@ -3,6 +3,6 @@ CONSTANTS
   NumRetries = {0, 5}
   Defects = {"BudgetOffByOne"}
 SPECIFICATION Spec
-INVARIANTS WithinGlobalTimeout ActionsAppliedOnce AttemptsBounded FreshHost RetryMade ReplyIsLast
+INVARIANTS WithinGlobalTimeout ActionsAppliedOnce AttemptsBounded FreshHost RetryMade ReplyIsLast BudgetSpentOnAttempts
 PROPERTY RetryOnlyIfConfigured
 CHECK_DEADLOCK FALSE
